@@ -23,6 +23,18 @@
 (*    clauses apply: Len() and Len(rr) must cover what Pack() writes.  Flagged    *)
 (*    loose; never decoded.  v = <<type, sized entry index (0: all), data length, *)
 (*    stored length>>.                                                            *)
+(* "spell"     content that has many SPELLINGS.  For every type and every RDATA    *)
+(*    field packed from escaped text -- character-strings (str, ostr), string     *)
+(*    lists (strs: TXT, SPF, AVC, NINFO, RESINFO), dns:"octet" values (CAA, URI), *)
+(*    names, name lists, gateway hosts -- a record whose field holds digits and    *)
+(*    letters side by side: runs of one, two, three and four digits before a       *)
+(*    letter, a punctuation mark, a label end and the end of the string, 3 to 14   *)
+(*    such places per record, several strings per list; owner and question name    *)
+(*    are of the same make and share a suffix with the RDATA names.  The vector    *)
+(*    states octets and lengths as for any other message; the harness packs it in  *)
+(*    the canonical spelling AND respelled (\X, \D, \DD before a non-digit, \DDD    *)
+(*    of printable characters, trailing backslash; lenspell.go), each spelling     *)
+(*    shown to be this very message by its octets.  v = <<type, entry, variant>>.  *)
 EXTENDS Gen_WireRR, CompressLen
 
 StTarget == << <<117, 110, 105, 113>>, <<115, 116, 114>>, <<116>> >>          \* uniq.str.t.
@@ -65,6 +77,30 @@ StMsg(pos, k) ==
       off1 == StTargetOff(StBuild(t, i, 1))           \* with one octet of padding
   IN StBuild(t, i, 1 + (16384 - k) - off1)
 
+SpS1 == <<118, 49, 50, 120, 51, 52, 59, 107, 53, 54>>                          \* v12x34;k56     two digits before a letter, ';', the end
+SpS2 == <<49, 50, 97, 51, 52, 98, 53, 54, 99, 55, 56, 100, 57, 48, 101, 49, 50>>  \* 12a34b56c78d90e12   six places
+SpS3 == <<107, 61, 49, 50, 51, 52, 32, 120, 55, 121, 56, 57, 48, 33, 49>>      \* k=1234 x7y890!1   runs of 4, 1, 3, 1
+SpStr(k)  == IF k = 1 THEN SpS1 ELSE IF k = 2 THEN SpS2 ELSE SpS3
+SpStrs(k) == IF k = 1 THEN << SpS1 >> ELSE IF k = 2 THEN << SpS1, SpS2, SpS3 >> ELSE << SpS2, <<>>, SpS2, <<49, 50>>, SpS3, SpS1 >>
+SpOwner   == << <<104, 49, 50>>, <<51, 52, 122>> >>                             \* h12.34z.
+SpName(k) == (IF k = 1 THEN << <<97, 49, 50, 98>>, <<51, 52>> >>                \* a12b.34.h12.34z.
+              ELSE IF k = 2 THEN << <<49, 50>>, <<118, 49, 120>>, <<53, 54, 45, 55, 56, 57>>, <<48>> >>   \* 12.v1x.56-789.0.h12.34z.
+              ELSE << <<49, 50, 51, 52, 97, 49, 50>> >>) \o SpOwner                \* 1234a12.h12.34z.
+IsTextEntry(e) == e.k \in {"str", "ostr", "strs", "octet", "name", "cname", "names", "gateway"}
+SpMsg(t, i, k) ==
+  LET es == FieldsOf(t)  e == es[i]
+      base0 == Fix(es, BaseF(es))
+      \* NXT's RFC 2535 bitmap is left empty (as in StX)
+      base == [n \in DOMAIN base0 |-> IF \E j \in 1..Len(es) : es[j].n = n /\ es[j].k = "bitmap0" THEN <<>> ELSE base0[n]]
+      val == CASE e.k \in {"str", "octet"} -> SpStr(k)
+               [] e.k = "ostr"  -> << SpStr(k) >>
+               [] e.k = "strs"  -> SpStrs(k)
+               [] e.k = "names" -> << SpName(k), SpName(1 + (k % 3)) >>
+               [] OTHER -> SpName(k)
+      f1 == [base EXCEPT ![e.n] = val]
+      f  == IF e.k = "gateway" THEN [f1 EXCEPT ![e.of] = 3] ELSE f1
+  IN Msg(H0, << [name |-> SpOwner, qtype |-> t, qclass |-> 1] >>, << RR(SpOwner, t, 1, Ttl1h, f) >>, <<>>, <<>>)
+
 SizedIdx(t) == { i \in 1..Len(FieldsOf(t)) : "sz" \in DOMAIN FieldsOf(t)[i] /\ FieldsOf(t)[i].k # "prefixaddr" }
 SizedTypes  == { t \in DOMAIN Layout : SizedIdx(t) # {} }
 SzData(n)   == [j \in 1..n |-> 160 + j]
@@ -79,7 +115,9 @@ SzMsg(t, i, n, stored) ==
   IN One1(t, f)
 
 -----------------------------------------------------------------------------
-InitL == \/ Mode \notin {"straddle", "sizes"} /\ Init
+InitL == \/ Mode \notin {"straddle", "sizes", "spell"} /\ Init
+         \/ Mode = "spell" /\ \E x \in 1..Len(TypeCodes) : \E i \in 1..Len(FieldsOf(TypeCodes[x])), k \in 1..3 :
+                                 IsTextEntry(FieldsOf(TypeCodes[x])[i]) /\ v = <<TypeCodes[x], i, k>>
          \/ Mode = "sizes" /\ \E t \in SizedTypes : \E i \in SizedIdx(t) \cup {0}, n \in {3, 20} : \E stored \in {0, n - 1, n + 3} :
                                  v = <<t, i, n, stored>>
          \/ Mode = "straddle" /\ \E pos \in (IF Tier = 0 THEN StQuick ELSE 1..Len(StPositions)), x \in 1..Len(StKs) :
@@ -99,6 +137,10 @@ OutL ==
     /\ Assert(~WFMsg(m) /\ IsOctets(EncMsg(m)), <<"sizes vector is not what it is meant to be", v>>)
     /\ Emit([g |-> Mode, v |-> v, msg |-> m, ok |-> TRUE, bytes |-> EncMsg(m), loose |-> TRUE, rroff |-> RROffsets(m),
              lenmsg |-> LenMsg(m), plain |-> FALSE, refuse |-> FALSE])
+  ELSE IF Mode = "spell" THEN
+    LET m == SpMsg(v[1], v[2], v[3])  vec == Vector(m) IN
+    /\ Assert(WFMsg(m) /\ vec.ok, <<"spell vector is not a packable message", v>>)
+    /\ Emit(vec @@ Model(m))
   ELSE LET m == Case  vec == Vector(m) IN
     /\ Assert(MayBeIllFormed \/ WFMsg(m), <<"ill-formed vector", Mode, v>>)
     /\ Emit(IF vec.ok THEN vec @@ Model(m) ELSE vec)
